@@ -297,7 +297,7 @@ def enum_syncs(seed):
     finally:
         shutil.rmtree(scratch, ignore_errors=True)
     return {"name": "C47.syncs.bounded_enumeration", "bound": "real _pre_download / _post_download with real gzip tarballs in a scratch directory: good, truncated and corrupt archives over an existing repository, and a good archive with the sync "
-            "stopped before every rename / makedirs / tar invocation (with and without an existing repository), each followed by an inspection of the repository path and a second sync", "cases": cases, "failures": fails[:8]}
+            "stopped before every rename / makedirs / tar invocation (with and without an existing repository), each followed by an inspection of the repository path and a second sync", "cases": cases, "failures": sorted(fails, key=lambda f: bool(f["model"].get("between_the_two_renames")))[:8]}  # unlisted failures first: a listed one never crowds them out
 
 
 def tasks():
